@@ -2,14 +2,14 @@
     nodes promoted and demoted between them without being freed.  Written over the heap-level
     primitives exactly as the Rust code is written over RawLRU; refines Slru.v. *)
 From VF Require Import Base Lru Slru BaseFacts LruFacts Counts PrimFacts SlruFacts
-  Heap HeapSlruDef HeapFacts HeapOps HeapRun HeapPrim HeapFrame HeapMulti.
+  Heap HeapIterDef HeapSlruDef HeapFacts HeapOps HeapRun HeapPrim HeapFrame HeapMulti HeapIter HeapClone.
 From Coq Require Import List Arith Lia Permutation.
 Import ListNotations.
 Local Open Scope nat_scope.
 
 (** ** the refinement relation *)
-Definition RS (h : heap) (s : hslru) (ls : slru) : Prop :=
-  exists la lb, fam h [(hprob s, la); (hprot s, lb)] [] /\
+Definition RS (Fx : list hlist) (h : heap) (s : hslru) (ls : slru) : Prop :=
+  exists la lb, fam h ((hprob s, la) :: (hprot s, lb) :: Fx) [] /\
                 entries la = items (prob ls) /\ entries lb = items (prot ls) /\
                 hcap (hprob s) = cap (prob ls) /\ hcap (hprot s) = cap (prot ls).
 
@@ -38,8 +38,8 @@ Proof. unfold entries. apply map_length. Qed.
 Lemma find_zero (l : list entry) k : cntl l k = 0 -> Base.find k l = None.
 Proof. apply cntl_zero_find. Qed.
 
-Theorem promote_refines h qa la qb lb a k v1 pa pb :
-  fam h [(qa, la); (qb, lb)] [(a, (k, v1))] ->
+Theorem promote_refines Fx h qa la qb lb a k v1 pa pb :
+  fam h ((qa, la) :: (qb, lb) :: Fx) [(a, (k, v1))] ->
   RS2 h qa qb pa pb la lb ->
   1 <= cap pa -> 1 <= cap pb -> llen pa < cap pa -> llen pb <= cap pb ->
   (forall x, cntl (items pa) x + cntl (items pb) x <= 1) ->
@@ -47,7 +47,7 @@ Theorem promote_refines h qa la qb lb a k v1 pa pb :
   exists h' qa' qb' pa' pb' la' lb',
     hs_promote h qa qb a = HOk (h', mkHslru qa' qb') /\
     l_promote pa pb (k, v1) = Ok (mkSlru pa' pb') /\
-    fam h' [(qa', la'); (qb', lb')] [] /\ RS2 h' qa' qb' pa' pb' la' lb' /\
+    fam h' ((qa', la') :: (qb', lb') :: Fx) [] /\ RS2 h' qa' qb' pa' pb' la' lb' /\
     (exists rest, lb' = (a, (k, v1)) :: rest) /\ fresh h' = fresh h.
 Proof.
   intros Hf (Ea & Eb & Eca & Ecb) Hc1 Hc2 Hl1 Hl2 Hd Hka Hkb.
@@ -56,7 +56,7 @@ Proof.
   destruct (put_nonnull_spec pb (k, v1) Hc2) as [[Hlt ->]|[Hge (rest & [vk vv] & Hit & ->)]]; cbn [bind].
   - (* room in protected *)
     unfold llen in Hlt. rewrite <- Eb, entries_len, <- Ecb in Hlt.
-    destruct (fam_put_or_evict_room h [(qa, la)] qb lb [] [] a k v1 [] Hf Hfb Hlt)
+    destruct (fam_put_or_evict_room h [(qa, la)] qb lb Fx [] a k v1 [] Hf Hfb Hlt)
       as (h' & qb' & -> & Hf' & E1 & E2 & E3 & Ef). cbn [hbind].
     exists h', qa, qb', pa, (with_items pb ((k, v1) :: items pb)), la, ((a, (k, v1)) :: lb).
     split; [reflexivity|]. split; [reflexivity|]. split; [exact Hf'|]. split; [|split; [eauto|exact Ef]].
@@ -66,14 +66,14 @@ Proof.
     { apply entries_split_last. rewrite Eb, Hit. apply split_last_snoc. }
     destruct Hsl as (lb0 & o & -> & Erest).
     unfold llen in Hge. rewrite <- Eb, entries_len, <- Ecb in Hge.
-    destruct (fam_put_or_evict_full h [(qa, la)] qb lb0 o vk vv [] [] a k v1 [] Hf Hfb Hge)
+    destruct (fam_put_or_evict_full h [(qa, la)] qb lb0 o vk vv Fx [] a k v1 [] Hf Hfb Hge)
       as (h1 & qb' & -> & Hf1 & E1 & E2 & E3 & Ef1). cbn [hbind app] in *.
     (* the demoted entry is not in probationary, which has room *)
     assert (Hvk : cntl (items pa) vk = 0).
     { specialize (Hd vk). rewrite Hit, cntl_app, cntl_cons, cntl_nil, ind_eqb_refl in Hd. lia. }
     assert (Hfa : Base.find vk (entries la) = None) by (rewrite Ea; now apply cntl_zero_find).
     assert (Hla : length la < hcap qa) by (unfold llen in Hl1; rewrite <- Ea, entries_len, <- Eca in Hl1; exact Hl1).
-    destruct (fam_put_nonnull_room h1 [] qa la [(qb', (a, (k, v1)) :: lb0)] [] o vk vv [] Hf1 Hfa Hla)
+    destruct (fam_put_nonnull_room h1 [] qa la ((qb', (a, (k, v1)) :: lb0) :: Fx) [] o vk vv [] Hf1 Hfa Hla)
       as (h2 & qa' & -> & Hf2 & F1 & F2 & F3 & Ef2). cbn [hbind app] in *.
     destruct (put_nonnull_spec pa (vk, vv) Hc1) as [[_ ->]|[Hge2 _]]; [|lia]. cbn [bind].
     exists h2, qa', qb', (with_items pa ((vk, vv) :: items pa)), (with_items pb ((k, v1) :: rest)),
@@ -98,31 +98,31 @@ Proof.
   - specialize (Hd k). lia.
 Qed.
 
-Theorem hs_put_refines h s ls k v :
-  RS h s ls -> slru_inv ls ->
-  exists h' s' ls' r, hs_put h s k v = HOk (h', s', r) /\ sput ls k v = Ok (ls', r) /\ RS h' s' ls'.
+Theorem hs_put_refines Fx h s ls k v :
+  RS Fx h s ls -> slru_inv ls ->
+  exists h' s' ls' r, hs_put h s k v = HOk (h', s', r) /\ sput ls k v = Ok (ls', r) /\ RS Fx h' s' ls'.
 Proof.
   intros (la & lb & Hf & Ea & Eb & Eca & Ecb) Hinv.
   destruct s as [qa qb]. destruct ls as [pa pb]. cbn [hprob hprot prob prot] in *.
-  pose proof (fam_member h [(qa, la)] qb lb [] [] Hf) as Hwb.
-  pose proof (fam_member h [] qa la [(qb, lb)] [] Hf) as Hwa.
+  pose proof (fam_member h [(qa, la)] qb lb Fx [] Hf) as Hwb.
+  pose proof (fam_member h [] qa la ((qb, lb) :: Fx) [] Hf) as Hwa.
   pose proof Hinv as (Hc1 & Hc2 & Hl1 & Hl2 & Hd). cbn [prob prot] in *.
   unfold hs_put, sput. cbn [hprob hprot prob prot].
   destruct (update_spec pb k v) as [[Hn Eu]|(old & Ho & Eu)]; rewrite Eu.
   - (* not in protected *)
     rewrite (idx_find_miss h qb lb k Hwb) by (now rewrite Eb). cbn [hbind].
-    rewrite (fam_contains h [] qa la [(qb, lb)] [] pa k Hf Ea). cbn [hbind]. unfold contains, mem.
+    rewrite (fam_contains h [] qa la ((qb, lb) :: Fx) [] pa k Hf Ea). cbn [hbind]. unfold contains, mem.
     destruct (Base.find k (items pa)) as [old|] eqn:Hfa.
     + (* probationary hit: the node is promoted with the new value *)
       rewrite <- Ea in Hfa. destruct (find_split la k old Hfa) as (la1 & a & la2 & ->). rewrite Ea in Hfa.
-      destruct (fam_remove_ent_hit h [] qa la1 a k old la2 [(qb, lb)] [] Hf)
+      destruct (fam_remove_ent_hit h [] qa la1 a k old la2 ((qb, lb) :: Fx) [] Hf)
         as (h1 & qa1 & -> & Hf1 & A1 & A2 & A3 & Af). cbn [hbind app] in *.
       destruct (fam_swap_value h1 _ [] a k old [] v Hf1) as (h2 & -> & Hf2 & Af2). cbn [hbind app] in *.
       destruct (prob_after_remove pa pb k old Hinv Hfa) as (P1 & P2 & P3 & P4).
       assert (HR2 : RS2 h2 qa1 qb (with_items pa (remove_key k (items pa))) pb (la1 ++ la2) lb).
       { repeat split; cbn [with_items items cap]; try congruence.
         destruct (find_entries_split la1 a k old la2 (proj2 (proj2 Hwa))) as [_ E]. rewrite <- Ea, E. apply entries_app. }
-      destruct (promote_refines h2 qa1 (la1 ++ la2) qb lb a k v _ pb Hf2 HR2 Hc1 Hc2 P1 Hl2 P2 P3 P4)
+      destruct (promote_refines Fx h2 qa1 (la1 ++ la2) qb lb a k v _ pb Hf2 HR2 Hc1 Hc2 P1 Hl2 P2 P3 P4)
         as (h' & qa' & qb' & pa' & pb' & la' & lb' & -> & EL & Hf' & (R1 & R2 & R3 & R4) & _ & _).
       cbn [hbind]. rewrite move_to_protected_unfold. cbn [prob prot].
       destruct (remove_ent_spec pa k) as [[Hn' _]|(v0 & Hv0 & ->)]; [congruence|].
@@ -130,7 +130,7 @@ Proof.
       do 4 eexists. split; [reflexivity|]. split; [reflexivity|].
       exists la', lb'. cbn [hprob hprot prob prot]. auto.
     + (* a new key: put into probationary *)
-      destruct (fam_put h [] qa la [(qb, lb)] [] pa k v Hf Ea Eca) as (h' & qa' & la' & -> & Hf' & El' & Ec' & _).
+      destruct (fam_put h [] qa la ((qb, lb) :: Fx) [] pa k v Hf Ea Eca) as (h' & qa' & la' & -> & Hf' & El' & Ec' & _).
       cbn [hbind]. destruct (Lru.put pa k v) as [[pa1 r] cbs]. cbn [fst snd] in *.
       do 4 eexists. split; [reflexivity|]. split; [reflexivity|].
       exists la', lb. cbn [hprob hprot prob prot]. auto.
@@ -138,7 +138,7 @@ Proof.
     rewrite <- Eb in Ho. destruct (find_split lb k old Ho) as (lb1 & a & lb2 & ->).
     rewrite (idx_find_hit h qb _ a k old Hwb) by (apply in_or_app; right; now left). cbn [hbind].
     destruct (h_update_framed h qb lb1 a k old lb2 v Hwb) as (h' & -> & HF). cbn [hbind].
-    pose proof (fam_framed h [(qa, la)] qb _ [] [] h' qb _ Hf HF) as Hf'.
+    pose proof (fam_framed h [(qa, la)] qb _ Fx [] h' qb _ Hf HF) as Hf'.
     do 4 eexists. split; [reflexivity|]. split; [reflexivity|].
     exists la, ((a, (k, v)) :: lb1 ++ lb2). cbn [hprob hprot prob prot with_items items cap].
     split; [exact Hf'|]. split; [exact Ea|]. split; [|auto].
@@ -147,39 +147,39 @@ Proof.
 Qed.
 
 (** ** get / get_mut: the reference handed back points into a linked node of the protected list *)
-Theorem hs_get_mut_refines h s ls k w :
-  RS h s ls -> slru_inv ls ->
-  exists h' s' ls' r, hs_get_mut h s k w = HOk (h', s', r) /\ sget_mut ls k w = Ok (ls', r) /\ RS h' s' ls'.
+Theorem hs_get_mut_refines Fx h s ls k w :
+  RS Fx h s ls -> slru_inv ls ->
+  exists h' s' ls' r, hs_get_mut h s k w = HOk (h', s', r) /\ sget_mut ls k w = Ok (ls', r) /\ RS Fx h' s' ls'.
 Proof.
   intros (la & lb & Hf & Ea & Eb & Eca & Ecb) Hinv.
   destruct s as [qa qb]. destruct ls as [pa pb]. cbn [hprob hprot prob prot] in *.
   pose proof Hinv as (Hc1 & Hc2 & Hl1 & Hl2 & Hd). cbn [prob prot] in *.
   unfold hs_get_mut, sget_mut. cbn [hprob hprot prob prot].
-  destruct (fam_get_mut h [(qa, la)] qb lb [] [] pb k w Hf Eb Ecb) as (h1 & lb1 & -> & Hf1 & Eb1 & Ecb1 & _).
+  destruct (fam_get_mut h [(qa, la)] qb lb Fx [] pb k w Hf Eb Ecb) as (h1 & lb1 & -> & Hf1 & Eb1 & Ecb1 & _).
   cbn [hbind app] in *.
   destruct (get_mut_spec pb k w) as [[Hn Eg]|(v0 & Hv & Eg)]; rewrite Eg in *; cbn [fst snd] in *.
   - (* not in protected *)
-    rewrite (fam_peek h1 [] qa la [(qb, lb1)] [] pa k Hf1 Ea). cbn [hbind]. unfold peek.
+    rewrite (fam_peek h1 [] qa la ((qb, lb1) :: Fx) [] pa k Hf1 Ea). cbn [hbind]. unfold peek.
     destruct (Base.find k (items pa)) as [v0|] eqn:Hfa.
-    + pose proof (fam_member h1 [] qa la [(qb, lb1)] [] Hf1) as Hwa.
+    + pose proof (fam_member h1 [] qa la ((qb, lb1) :: Fx) [] Hf1) as Hwa.
       rewrite <- Ea in Hfa. destruct (find_split la k v0 Hfa) as (la1 & a & la2 & ->). rewrite Ea in Hfa.
       unfold hs_move_to_protected. cbn [hprob hprot].
-      destruct (fam_remove_ent_hit h1 [] qa la1 a k v0 la2 [(qb, lb1)] [] Hf1)
+      destruct (fam_remove_ent_hit h1 [] qa la1 a k v0 la2 ((qb, lb1) :: Fx) [] Hf1)
         as (h2 & qa1 & -> & Hf2 & A1 & A2 & A3 & Af). cbn [hbind app] in *.
       destruct (prob_after_remove pa pb k v0 Hinv Hfa) as (P1 & P2 & P3 & P4).
       assert (HR2 : RS2 h2 qa1 qb (with_items pa (remove_key k (items pa))) pb (la1 ++ la2) lb1).
       { repeat split; cbn [with_items items cap]; try congruence.
         destruct (find_entries_split la1 a k v0 la2 (proj2 (proj2 Hwa))) as [_ E]. rewrite <- Ea, E. apply entries_app. }
-      destruct (promote_refines h2 qa1 (la1 ++ la2) qb lb1 a k v0 _ pb Hf2 HR2 Hc1 Hc2 P1 Hl2 P2 P3 P4)
+      destruct (promote_refines Fx h2 qa1 (la1 ++ la2) qb lb1 a k v0 _ pb Hf2 HR2 Hc1 Hc2 P1 Hl2 P2 P3 P4)
         as (h3 & qa' & qb' & pa' & pb' & la' & lb' & -> & EL & Hf3 & (R1 & R2 & R3 & R4) & (rest & ->) & _).
       cbn [hbind].
       (* the write through the reference *)
-      pose proof (fam_member h3 [(qa', la')] qb' _ [] [] Hf3) as Hwb3.
+      pose proof (fam_member h3 [(qa', la')] qb' _ Fx [] Hf3) as Hwb3.
       destruct (h_write_ok h3 qb' [] a k v0 rest w Hwb3) as (h4 & -> & Hwb4 & Ef4 & Hfr4). cbn [hbind snd app] in *.
       assert (HF : framed h3 qb' ((a, (k, v0)) :: rest) h4 qb' ((a, (k, wval w v0)) :: rest)).
       { apply framed_same; auto; [intros y; cbn [addrs map fst]; tauto|].
         intros x (_ & _ & C). apply Hfr4. intros ->. apply C. now left. }
-      pose proof (fam_framed h3 [(qa', la')] qb' _ [] [] h4 qb' _ Hf3 HF) as Hf4.
+      pose proof (fam_framed h3 [(qa', la')] qb' _ Fx [] h4 qb' _ Hf3 HF) as Hf4.
       rewrite move_to_protected_unfold. cbn [prob prot].
       destruct (remove_ent_spec pa k) as [[Hn' _]|(v1 & Hv1 & ->)]; [congruence|].
       assert (v1 = v0) by congruence. subst v1.
@@ -207,64 +207,98 @@ Proof.
 Qed.
 
 (** ** peek, peek_mut, contains, remove, purge *)
-Theorem hs_peek_refines h s ls k :
-  RS h s ls -> hs_peek h s k = HOk (speek ls k).
+Theorem hs_peek_refines Fx h s ls k :
+  RS Fx h s ls -> hs_peek h s k = HOk (speek ls k).
 Proof.
   intros (la & lb & Hf & Ea & Eb & Eca & Ecb). destruct s as [qa qb]. destruct ls as [pa pb].
   cbn [hprob hprot prob prot] in *. unfold hs_peek, speek. cbn [hprob hprot prob prot].
-  rewrite (fam_peek h [(qa, la)] qb lb [] [] pb k Hf Eb). cbn [hbind].
-  destruct (peek pb k); [reflexivity|]. apply (fam_peek h [] qa la [(qb, lb)] [] pa k Hf Ea).
+  rewrite (fam_peek h [(qa, la)] qb lb Fx [] pb k Hf Eb). cbn [hbind].
+  destruct (peek pb k); [reflexivity|]. apply (fam_peek h [] qa la ((qb, lb) :: Fx) [] pa k Hf Ea).
 Qed.
 
-Theorem hs_contains_refines h s ls k :
-  RS h s ls -> hs_contains h s k = HOk (scontains ls k).
+Theorem hs_contains_refines Fx h s ls k :
+  RS Fx h s ls -> hs_contains h s k = HOk (scontains ls k).
 Proof.
   intros (la & lb & Hf & Ea & Eb & Eca & Ecb). destruct s as [qa qb]. destruct ls as [pa pb].
   cbn [hprob hprot prob prot] in *. unfold hs_contains, scontains. cbn [hprob hprot prob prot].
-  rewrite (fam_contains h [(qa, la)] qb lb [] [] pb k Hf Eb). cbn [hbind].
-  destruct (contains pb k); [reflexivity|]. apply (fam_contains h [] qa la [(qb, lb)] [] pa k Hf Ea).
+  rewrite (fam_contains h [(qa, la)] qb lb Fx [] pb k Hf Eb). cbn [hbind].
+  destruct (contains pb k); [reflexivity|]. apply (fam_contains h [] qa la ((qb, lb) :: Fx) [] pa k Hf Ea).
 Qed.
 
-Theorem hs_peek_mut_refines h s ls k w :
-  RS h s ls ->
-  exists h', hs_peek_mut h s k w = HOk (h', snd (speek_mut ls k w)) /\ RS h' s (fst (speek_mut ls k w)).
+Theorem hs_peek_mut_refines Fx h s ls k w :
+  RS Fx h s ls ->
+  exists h', hs_peek_mut h s k w = HOk (h', snd (speek_mut ls k w)) /\ RS Fx h' s (fst (speek_mut ls k w)).
 Proof.
   intros (la & lb & Hf & Ea & Eb & Eca & Ecb). destruct s as [qa qb]. destruct ls as [pa pb].
   cbn [hprob hprot prob prot] in *. unfold hs_peek_mut, speek_mut. cbn [hprob hprot prob prot].
-  destruct (fam_peek_mut h [(qa, la)] qb lb [] [] pb k w Hf Eb Ecb) as (h1 & lb1 & -> & Hf1 & Eb1 & Ecb1 & _).
+  destruct (fam_peek_mut h [(qa, la)] qb lb Fx [] pb k w Hf Eb Ecb) as (h1 & lb1 & -> & Hf1 & Eb1 & Ecb1 & _).
   cbn [hbind app] in *.
   destruct (peek_mut_spec pb k w) as [[_ E]|(v & _ & E)]; rewrite E in *; cbn [fst snd] in *.
-  - destruct (fam_peek_mut h1 [] qa la [(qb, lb1)] [] pa k w Hf1 Ea Eca) as (h2 & la1 & -> & Hf2 & Ea1 & Eca1 & _).
+  - destruct (fam_peek_mut h1 [] qa la ((qb, lb1) :: Fx) [] pa k w Hf1 Ea Eca) as (h2 & la1 & -> & Hf2 & Ea1 & Eca1 & _).
     cbn [app] in *. destruct (peek_mut pa k w) as [pa1 r]. cbn [fst snd] in *.
     exists h2. split; [reflexivity|]. exists la1, lb1. cbn [hprob hprot prob prot]. auto.
   - exists h1. split; [reflexivity|]. exists la, lb1. cbn [hprob hprot prob prot]. auto.
 Qed.
 
-Theorem hs_remove_refines h s ls k :
-  RS h s ls ->
-  exists h' s', hs_remove h s k = HOk (h', s', snd (sremove ls k)) /\ RS h' s' (fst (sremove ls k)).
+Theorem hs_remove_refines Fx h s ls k :
+  RS Fx h s ls ->
+  exists h' s', hs_remove h s k = HOk (h', s', snd (sremove ls k)) /\ RS Fx h' s' (fst (sremove ls k)).
 Proof.
   intros (la & lb & Hf & Ea & Eb & Eca & Ecb). destruct s as [qa qb]. destruct ls as [pa pb].
   cbn [hprob hprot prob prot] in *. unfold hs_remove, sremove. cbn [hprob hprot prob prot].
-  destruct (fam_remove h [] qa la [(qb, lb)] [] pa k Hf Ea Eca) as (h1 & qa1 & la1 & -> & Hf1 & Ea1 & Eca1 & _).
+  destruct (fam_remove h [] qa la ((qb, lb) :: Fx) [] pa k Hf Ea Eca) as (h1 & qa1 & la1 & -> & Hf1 & Ea1 & Eca1 & _).
   cbn [hbind app] in *.
   destruct (remove_spec pa k) as [[_ E]|(v & _ & E)]; rewrite E in *; cbn [fst snd] in *.
-  - destruct (fam_remove h1 [(qa1, la1)] qb lb [] [] pb k Hf1 Eb Ecb) as (h2 & qb1 & lb1 & -> & Hf2 & Eb1 & Ecb1 & _).
+  - destruct (fam_remove h1 [(qa1, la1)] qb lb Fx [] pb k Hf1 Eb Ecb) as (h2 & qb1 & lb1 & -> & Hf2 & Eb1 & Ecb1 & _).
     cbn [hbind app] in *. destruct (Lru.remove pb k) as [[pb1 r] cbs]. cbn [fst snd] in *.
     do 2 eexists. split; [reflexivity|]. exists la1, lb1. cbn [hprob hprot prob prot]. auto.
   - do 2 eexists. split; [reflexivity|]. exists la1, lb. cbn [hprob hprot prob prot]. auto.
 Qed.
 
-Theorem hs_purge_refines h s ls :
-  RS h s ls -> exists h' s', hs_purge h s = HOk (h', s') /\ RS h' s' (spurge ls).
+Theorem hs_purge_refines Fx h s ls :
+  RS Fx h s ls -> exists h' s', hs_purge h s = HOk (h', s') /\ RS Fx h' s' (spurge ls).
 Proof.
   intros (la & lb & Hf & Ea & Eb & Eca & Ecb). destruct s as [qa qb]. destruct ls as [pa pb].
   cbn [hprob hprot prob prot] in *. unfold hs_purge, spurge. cbn [hprob hprot prob prot].
-  destruct (fam_purge h [] qa la [(qb, lb)] [] pa Hf Ea Eca) as (h1 & qa1 & la1 & -> & Hf1 & Ea1 & Eca1 & _).
+  destruct (fam_purge h [] qa la ((qb, lb) :: Fx) [] pa Hf Ea Eca) as (h1 & qa1 & la1 & -> & Hf1 & Ea1 & Eca1 & _).
   cbn [hbind app] in *.
-  destruct (fam_purge h1 [(qa1, la1)] qb lb [] [] pb Hf1 Eb Ecb) as (h2 & qb1 & lb1 & -> & Hf2 & Eb1 & Ecb1 & _).
+  destruct (fam_purge h1 [(qa1, la1)] qb lb Fx [] pb Hf1 Eb Ecb) as (h2 & qb1 & lb1 & -> & Hf2 & Eb1 & Ecb1 & _).
   cbn [hbind app] in *.
   do 2 eexists. split; [reflexivity|]. exists la1, lb1. cbn [hprob hprot prob prot]. auto.
+Qed.
+
+(** ** put_protected *)
+Theorem hs_put_protected_refines Fx h s ls k v :
+  RS Fx h s ls ->
+  exists h' s', hs_put_protected h s k v = HOk (h', s', snd (sput_protected ls k v)) /\
+                RS Fx h' s' (fst (sput_protected ls k v)).
+Proof.
+  intros (la & lb & Hf & Ea & Eb & Eca & Ecb). destruct s as [qa qb]. destruct ls as [pa pb].
+  cbn [hprob hprot prob prot] in *. unfold hs_put_protected, sput_protected. cbn [hprob hprot prob prot].
+  destruct (fam_remove h [] qa la ((qb, lb) :: Fx) [] pa k Hf Ea Eca) as (h1 & qa1 & la1 & -> & Hf1 & Ea1 & Eca1 & _).
+  cbn [hbind app] in *.
+  destruct (fam_put h1 [(qa1, la1)] qb lb Fx [] pb k v Hf1 Eb Ecb) as (h2 & qb1 & lb1 & -> & Hf2 & Eb1 & Ecb1 & _).
+  cbn [hbind app] in *.
+  destruct (remove_spec pa k) as [[_ E]|(old & _ & E)]; rewrite E in *; cbn [fst snd] in *;
+  destruct (Lru.put pb k v) as [[pb1 r] cbs]; cbn [fst snd] in *;
+  (do 2 eexists; split; [reflexivity|]; exists la1, lb1; cbn [hprob hprot prob prot]; auto).
+Qed.
+
+(** ** the per-segment accessors *)
+Definition lseg (s : slru) (p : bool) : lru := if p then prot s else prob s.
+Definition lwith_seg (s : slru) (p : bool) (l : lru) : slru := if p then mkSlru (prob s) l else mkSlru l (prot s).
+
+Theorem hs_seg_refines Fx h s ls p o :
+  RS Fx h s ls ->
+  exists h' s', hs_seg h s p o = HOk (h', s', snd (lstep (lseg ls p) o)) /\
+                RS Fx h' s' (lwith_seg ls p (fst (lstep (lseg ls p) o))).
+Proof.
+  intros (la & lb & Hf & Ea & Eb & Eca & Ecb). destruct s as [qa qb]. destruct ls as [pa pb].
+  cbn [hprob hprot prob prot] in *. unfold hs_seg, lseg, lwith_seg. cbn [hprob hprot prob prot]. destruct p.
+  - destruct (fam_step h [(qa, la)] qb lb Fx [] pb o Hf Eb Ecb) as (h' & q' & l' & -> & Hf' & El' & Ec' & _).
+    cbn [hbind app] in *. do 2 eexists. split; [reflexivity|]. exists la, l'. cbn [hprob hprot prob prot]. auto.
+  - destruct (fam_step h [] qa la ((qb, lb) :: Fx) [] pa o Hf Ea Eca) as (h' & q' & l' & -> & Hf' & El' & Ec' & _).
+    cbn [hbind app] in *. do 2 eexists. split; [reflexivity|]. exists l', lb. cbn [hprob hprot prob prot]. auto.
 Qed.
 
 (** ** new and Drop *)
@@ -279,7 +313,7 @@ Proof.
 Qed.
 
 Theorem hs_new_refines pc fc :
-  RS (fst (hs_new heap0 pc fc)) (snd (hs_new heap0 pc fc)) (slru_new pc fc).
+  RS [] (fst (hs_new heap0 pc fc)) (snd (hs_new heap0 pc fc)) (slru_new pc fc).
 Proof.
   unfold hs_new.
   destruct (fam_new heap0 [] pc fam_empty) as (F1 & C1 & _).
@@ -298,12 +332,63 @@ Proof.
 Qed.
 
 Theorem hs_drop_ok h s ls :
-  RS h s ls -> exists h', hs_drop h s = HOk h' /\ forall a, cells h' a = Free.
+  RS [] h s ls -> exists h', hs_drop h s = HOk h' /\ forall a, cells h' a = Free.
 Proof.
   intros (la & lb & Hf & _). destruct s as [qa qb]. cbn [hprob hprot] in *. unfold hs_drop. cbn [hprob hprot].
   destruct (fam_drop h [] qa la [(qb, lb)] Hf) as (h1 & -> & Hf1 & _). cbn [hbind app] in *.
   destruct (fam_drop h1 [] qb lb [] Hf1) as (h2 & -> & Hf2 & _). cbn [app] in *.
   exists h2. split; [reflexivity|]. intros a. apply (fam_tight _ _ _ Hf2). intros [].
+Qed.
+
+(** ** [Clone for SegmentedCache] *)
+Theorem hs_clone_ok h F s la lb :
+  fam h F [] -> In (hprob s, la) F -> In (hprot s, lb) F ->
+  length la <= hcap (hprob s) -> length lb <= hcap (hprot s) ->
+  exists h' s' la' lb', hs_clone h s = HOk (h', s') /\
+    fam h' ((hprot s', lb') :: (hprob s', la') :: F) [] /\
+    entries la' = entries la /\ entries lb' = entries lb /\
+    hcap (hprob s') = hcap (hprob s) /\ hcap (hprot s') = hcap (hprot s) /\ fresh h <= fresh h'.
+Proof.
+  intros Hf Ha Hb Hla Hlb. unfold hs_clone.
+  destruct (h_clone_in h F _ la Hf Ha Hla) as (h1 & qa & la' & -> & Hf1 & Ea & Ca & _ & _ & Hfr1). cbn [hbind].
+  destruct (h_clone_in h1 _ _ lb Hf1 (or_intror Hb) Hlb) as (h2 & qb & lb' & -> & Hf2 & Eb & Cb & _ & _ & Hfr2). cbn [hbind].
+  exists h2, (mkHslru qa qb), la', lb'. cbn [hprob hprot]. split; [reflexivity|]. split; [exact Hf2|].
+  repeat (split; [assumption|]). lia.
+Qed.
+
+Lemma lru_inv_of h q l p : wf h q l -> entries l = items p -> llen p <= cap p -> lru_inv p.
+Proof. intros (_ & _ & Hnd) E Hl. split; [now rewrite <- E|exact Hl]. Qed.
+
+Lemma RS_sclone Fx h s ls : RS Fx h s ls -> slru_inv ls -> sclone ls = ls.
+Proof.
+  intros (la & lb & Hf & Ea & Eb & Ca & Cb) (_ & _ & Hla & Hlb & _).
+  assert (Hia : lru_inv (prob ls)).
+  { apply (lru_inv_of h (hprob s) la); auto. apply (fam_wf _ _ _ Hf). now left. }
+  assert (Hib : lru_inv (prot ls)).
+  { apply (lru_inv_of h (hprot s) lb); auto. apply (fam_wf _ _ _ Hf). right. now left. }
+  unfold sclone. rewrite (clone_id _ Hia), (clone_id _ Hib). now destruct ls.
+Qed.
+
+Theorem hs_clone_refines Fx h s ls :
+  RS Fx h s ls -> slru_inv ls ->
+  exists h' s', hs_clone_replace h s = HOk (h', s') /\ RS Fx h' s' (sclone ls).
+Proof.
+  intros HR Hinv. rewrite (RS_sclone Fx h s ls HR Hinv).
+  destruct HR as (la & lb & Hf & Ea & Eb & Ca & Cb). destruct Hinv as (_ & _ & Hla & Hlb & _).
+  assert (La : length la <= hcap (hprob s)) by (rewrite Ca, <- entries_len, Ea; exact Hla).
+  assert (Lb : length lb <= hcap (hprot s)) by (rewrite Cb, <- entries_len, Eb; exact Hlb).
+  destruct (hs_clone_ok h _ s la lb Hf (or_introl eq_refl) (or_intror (or_introl eq_refl)) La Lb)
+    as (h1 & s' & la' & lb' & E & Hf1 & Ea' & Eb' & Ca' & Cb' & _).
+  unfold hs_clone_replace, hs_drop. rewrite E. cbn [hbind].
+  destruct (fam_drop_perm h1 _ (hprob s) la ((hprot s', lb') :: (hprob s', la') :: (hprot s, lb) :: Fx) Hf1)
+    as (h2 & -> & Hf2 & _).
+  { apply Permutation_sym. exact (Permutation_middle [(hprot s', lb'); (hprob s', la')] ((hprot s, lb) :: Fx) (hprob s, la)). }
+  cbn [hbind].
+  destruct (fam_drop_perm h2 _ (hprot s) lb ((hprot s', lb') :: (hprob s', la') :: Fx) Hf2) as (h3 & -> & Hf3 & _).
+  { apply Permutation_sym. exact (Permutation_middle [(hprot s', lb'); (hprob s', la')] Fx (hprot s, lb)). }
+  cbn [hbind]. exists h3, s'. split; [reflexivity|].
+  exists la', lb'. split; [exact (fam_perm _ _ _ _ Hf3 (perm_swap _ _ _))|].
+  cbn [prob prot]. repeat split; congruence.
 Qed.
 
 (** ** histories *)
@@ -316,29 +401,35 @@ Definition ls_step (s : slru) (o : sop) : res (slru * hout) :=
   | SContains k => Ok (s, OBool (scontains s k))
   | SRemove k => Ok (fst (sremove s k), OVal (snd (sremove s k)))
   | SPurge => Ok (spurge s, OUnit)
+  | SPutProtected k v => Ok (fst (sput_protected s k v), OPut (snd (sput_protected s k v)))
+  | SClone => Ok (sclone s, OUnit)
   end.
 
-Theorem slru_step_refines h s ls o :
-  RS h s ls -> slru_inv ls ->
-  exists h' s' ls' r, hs_step h s o = HOk (h', s', r) /\ ls_step ls o = Ok (ls', r) /\ RS h' s' ls' /\ slru_inv ls'.
+Theorem slru_step_refines Fx h s ls o :
+  RS Fx h s ls -> slru_inv ls ->
+  exists h' s' ls' r, hs_step h s o = HOk (h', s', r) /\ ls_step ls o = Ok (ls', r) /\ RS Fx h' s' ls' /\ slru_inv ls'.
 Proof.
-  intros HR Hinv. destruct o as [k v|k w|k|k w|k|k|]; cbn [hs_step ls_step].
-  - destruct (hs_put_refines h s ls k v HR Hinv) as (h' & s' & ls' & r & -> & E & HR').
+  intros HR Hinv. destruct o as [k v|k w|k|k w|k|k| |k v|]; cbn [hs_step ls_step].
+  - destruct (hs_put_refines Fx h s ls k v HR Hinv) as (h' & s' & ls' & r & -> & E & HR').
     destruct (sput_ok ls k v Hinv) as (s2 & r2 & E2 & Hinv2 & _). rewrite E in *. inversion E2; subst.
     cbn [hbind bind]. eauto 10.
-  - destruct (hs_get_mut_refines h s ls k w HR Hinv) as (h' & s' & ls' & r & -> & E & HR').
+  - destruct (hs_get_mut_refines Fx h s ls k w HR Hinv) as (h' & s' & ls' & r & -> & E & HR').
     destruct (sget_mut_ok ls k w Hinv) as (s2 & r2 & E2 & Hinv2 & _). rewrite E in *. inversion E2; subst.
     cbn [hbind bind]. eauto 10.
-  - rewrite (hs_peek_refines h s ls k HR). cbn [hbind]. eauto 10.
-  - destruct (hs_peek_mut_refines h s ls k w HR) as (h' & -> & HR'). cbn [hbind].
+  - rewrite (hs_peek_refines Fx h s ls k HR). cbn [hbind]. eauto 10.
+  - destruct (hs_peek_mut_refines Fx h s ls k w HR) as (h' & -> & HR'). cbn [hbind].
     destruct (speek_mut_ok ls k w Hinv) as (Hinv2 & _). eauto 10.
-  - rewrite (hs_contains_refines h s ls k HR). cbn [hbind]. eauto 10.
-  - destruct (hs_remove_refines h s ls k HR) as (h' & s' & -> & HR'). cbn [hbind].
+  - rewrite (hs_contains_refines Fx h s ls k HR). cbn [hbind]. eauto 10.
+  - destruct (hs_remove_refines Fx h s ls k HR) as (h' & s' & -> & HR'). cbn [hbind].
     destruct (sremove_ok ls k Hinv) as (Hinv2 & _). eauto 10.
-  - destruct (hs_purge_refines h s ls HR) as (h' & s' & -> & HR'). cbn [hbind].
+  - destruct (hs_purge_refines Fx h s ls HR) as (h' & s' & -> & HR'). cbn [hbind].
     do 4 eexists. split; [reflexivity|]. split; [reflexivity|]. split; [exact HR'|].
     destruct Hinv as (Hc1 & Hc2 & Hl1 & Hl2 & Hd). unfold spurge, purge. cbn [fst prob prot with_items items cap llen length].
     repeat split; cbn [prob prot llen items length cap with_items]; try lia; intros x; rewrite ?cntl_nil; cbn; lia.
+  - destruct (hs_put_protected_refines Fx h s ls k v HR) as (h' & s' & -> & HR'). cbn [hbind].
+    destruct (sput_protected_ok ls k v Hinv) as (Hinv2 & _). eauto 10.
+  - destruct (hs_clone_refines Fx h s ls HR Hinv) as (h' & s' & -> & HR'). cbn [hbind].
+    rewrite (RS_sclone Fx h s ls HR Hinv) in *. eauto 10.
 Qed.
 
 Fixpoint ls_run (s : slru) (os : list sop) : res (slru * list hout) :=
@@ -351,15 +442,15 @@ Theorem slru_history_safe pc fc os :
   1 <= pc -> 1 <= fc ->
   exists h s ls outs h',
     hs_run (fst (hs_new heap0 pc fc)) (snd (hs_new heap0 pc fc)) os = HOk (h, s, outs) /\
-    ls_run (slru_new pc fc) os = Ok (ls, outs) /\ RS h s ls /\
+    ls_run (slru_new pc fc) os = Ok (ls, outs) /\ RS [] h s ls /\
     hs_drop h s = HOk h' /\ (forall a, cells h' a = Free).
 Proof.
   intros H1 H2.
-  assert (G : forall os h s ls, RS h s ls -> slru_inv ls ->
-            exists h1 s1 ls1 outs, hs_run h s os = HOk (h1, s1, outs) /\ ls_run ls os = Ok (ls1, outs) /\ RS h1 s1 ls1).
+  assert (G : forall os h s ls, RS [] h s ls -> slru_inv ls ->
+            exists h1 s1 ls1 outs, hs_run h s os = HOk (h1, s1, outs) /\ ls_run ls os = Ok (ls1, outs) /\ RS [] h1 s1 ls1).
   { clear. induction os as [|o rest IH]; intros h s ls HR Hinv; [cbn; eauto 10|].
     cbn [hs_run ls_run].
-    destruct (slru_step_refines h s ls o HR Hinv) as (h1 & s1 & ls1 & r & -> & -> & HR1 & Hinv1). cbn [hbind bind].
+    destruct (slru_step_refines [] h s ls o HR Hinv) as (h1 & s1 & ls1 & r & -> & -> & HR1 & Hinv1). cbn [hbind bind].
     destruct (IH h1 s1 ls1 HR1 Hinv1) as (h2 & s2 & ls2 & outs & -> & -> & HR2). cbn [hbind bind]. eauto 10. }
   destruct (G os _ _ _ (hs_new_refines pc fc) (slru_new_inv pc fc H1 H2)) as (h & s & ls & outs & E1 & E2 & HR).
   destruct (hs_drop_ok h s ls HR) as (h' & Ed & Hall).
